@@ -8,7 +8,7 @@
 //   bigimage <fmt> <w> <h> <outfile> <base> <mul>      pixel data = 32-bit words base + i*mul (made here: too big for hex)
 //   tracesteer <outprefix> <S> <window> <pattern>      steer the size of the saved log towards S bytes, then save after
 //                                                      EVERY further event until the log is larger than S + window
-//   trace <outfile> <processNameIndex or -1> <mainThreadRecords:0|1> <nthreads>
+//   trace <outfile> <processNameIndex or -1> <mainThreadRecords:0|1> <nthreads> <globalLocale: 0 classic, 1 en-like, 2 de-like>
 //     then per thread:  thread <nameIndex or -1> <nevents>  followed by nevents events:
 //       B <name> <cat|-1> | E | I <name> <cat|-1> | C <name> <value> | M
 //   (names / categories / thread and process names are indices into fixed tables: the recorder caches
@@ -18,6 +18,7 @@
 #include <cstring>
 #include <fstream>
 #include <iostream>
+#include <locale>
 #include <sstream>
 #include <string>
 #include <sys/stat.h>
@@ -204,8 +205,21 @@ int main(int argc, char **argv)
   }
   if (what == "trace") {
     std::string out;
-    int pname, mainRecords, nthreads;
-    in >> out >> pname >> mainRecords >> nthreads;
+    int pname, mainRecords, nthreads, loc = 0;
+    in >> out >> pname >> mainRecords >> nthreads >> loc;
+    if (loc) {
+      // the application has installed a global C++ locale with digit grouping and a decimal comma (what
+      // std::locale::global(std::locale("")) gives under de_DE / en_US); a JSON writer must not pick it up
+      struct Grouping : std::numpunct<char>
+      {
+        char sep, point;
+        Grouping(char s, char p) : sep(s), point(p) {}
+        char do_thousands_sep() const override { return sep; }
+        char do_decimal_point() const override { return point; }
+        std::string do_grouping() const override { return "\3"; }
+      };
+      std::locale::global(std::locale(std::locale::classic(), loc == 1 ? new Grouping(',', '.') : new Grouping('.', ',')));
+    }
     std::vector<std::vector<Ev>> per((size_t)nthreads);
     std::vector<int> tname((size_t)nthreads);
     for (int t = 0; t < nthreads; ++t) {
@@ -235,6 +249,7 @@ int main(int argc, char **argv)
     if (mainRecords && nthreads > 0) {  // thread 0 of the case is the main thread
       record(per[0], tname[0]);
       std::ostringstream os;
+      os.imbue(std::locale::classic());
       os << std::this_thread::get_id();
       ident[0] = tname[0] >= 0 ? TNAMES[tname[0]] : os.str();
       first = 1;
@@ -243,6 +258,7 @@ int main(int argc, char **argv)
       th.emplace_back([&, t] {
         record(per[(size_t)t], tname[(size_t)t]);
         std::ostringstream os;
+        os.imbue(std::locale::classic());
         os << std::this_thread::get_id();
         ident[(size_t)t] = tname[(size_t)t] >= 0 ? TNAMES[tname[(size_t)t]] : os.str();
         // a thread that recorded nothing and set no name never registers with the recorder
